@@ -135,7 +135,7 @@ def generate(ctx, rng):
         profile = rng.choice(PROFILES)
         alpha = _alphabet(profile, full=True)
         n = rng.randint(3, 20)
-        ops = [rng.choice(alpha) if rng.random() < 0.7 else rng.choice([["apply"], ["refresh"]]) for _ in range(n)]
+        ops = [rng.choice(alpha) if rng.random() < 0.7 else rng.choice([["apply"], ["refresh"], ["caps"]]) for _ in range(n)]
         yield ("rnd", j), {"profile": list(profile), "ops": ops + [["apply"], ["refresh"]]}
 
 
@@ -257,6 +257,8 @@ def run_case(ctx, case):
                 last_apply = None
                 maybe |= fresh
                 fresh = set()
+            elif op[0] == "caps":
+                await ac.get_capabilities()      # re-querying the (unchanged) profile must not disturb pending settings
             elif op[0] == "selfclean":
                 n0 = len(model.prop_sets)
                 await ac.start_self_clean()
